@@ -18,7 +18,7 @@ META = {
         "R13.1": "WeightedPair::new: sum = checked_add(a.weight(), b.weight()); None -> Err(WeightSumOverflow(a_w,b_w)) via ?; distr = Bernoulli::from_ratio(a_w, sum).ok(); fields (a,b,distr,weight_sum) = (a,b,distr,sum); weight() returns weight_sum",
         "R13.2": "WeightedPair::select: None -> ZeroWeight; sample(rng)==true -> a.select, false -> b.select; errors wrapped A/B then Selector",
         "R13.3": "WithWeightedItem impls build WeightedPair::new(self, item); Result impl: self? first; with_item_and_weight = with_weighted_item(Weighted::new(item, weight)); Weighted::new/weight store/return weight",
-        "R13.4": "DynWeighted::select: choose_weighted(selectors, rng, |(_, w)| *w); WeightError propagated; chosen.0 performs the one selection; new/with_selector store (Box(selector), weight)",
+        "R13.4": "DynWeighted::select: choose_weighted(selectors, rng, |(_, w)| *w); WeightError propagated; chosen.0 performs the one selection; new/with_selector store (Box(selector), weight); with_selector only pushes that entry onto self.selectors and returns self",
     },
     "trusted_base": ["rand 0.9 Bernoulli::from_ratio(n, d) = P(true) n/d (Err when d == 0 or n > d), Distribution::sample, IndexedRandom::choose_weighted", "rustc MIR construction", "uecfacts driver + uecheck rule engine"],
     "assumptions": [],
@@ -172,3 +172,19 @@ def check(ctx):
                     base = ws[0][3][0]
                     found = base[0] == "agg" and base[2].endswith("DynWeighted::DynWeighted") and len(base[3]) == 1 and callee_is(base[3][0], "Vec::new", "Default::default", "Vec::with_capacity")
         ctx.check(found, "R13.4", "DynWeighted::%s-stores-(selector,weight)" % name, "entry tuple = (Box(selector), weight)", f.at())
+        if name == "with_selector":
+            # ... and does nothing else to the members already there: the one in-place change of `self` is that push onto
+            # self.selectors, and self is what is returned
+            strict = len(ps) == 1 and len([p for p in ctx.paths(f) if p.end != "unreachable"]) == 1
+            detail = "-"
+            if strict:
+                p = ps[0]
+                pushes = [c for c in p.calls() if callee_is(c, "Vec::push")]
+                others = [c for c in p.calls() if not callee_is(c, "Vec::push", "Box::new")]
+                detail = "; ".join(short(c, 4) for c in p.calls()) + " -> " + short(p.ret, 4)
+                strict = len(pushes) == 1 and not others and peel(pushes[0][3][0], ("DerefMut::deref_mut",)) == ("field", ("param", 1), "selectors", None) or \
+                    (len(pushes) == 1 and not others and peel(pushes[0][3][0], ("DerefMut::deref_mut",))[:3] == ("field", ("param", 1), 0))
+                r = p.ret
+                strict = strict and (r == ("param", 1) or (r[0] == "tampered" and r[1] == ("param", 1) and r[2] == "push" and r[3] == pushes[0][4]))
+            ctx.check(strict, "R13.4", "DynWeighted::with_selector-only-appends-and-returns-self", detail, f.at(),
+                      bad_detail="with_selector must push the one new entry onto self.selectors, change nothing else and return self; extracted " + detail)
